@@ -34,6 +34,11 @@ def yearPair (y a b : Nat) : Bool :=
 set_option maxRecDepth 100000 in
 theorem years_tile_fact : adjRec 512 yearPair Gen.monthsChunks = true := by decide +kernel
 
+-- TABLE FACT: every year record has leap month ≤ 12 and 12 or 13 months (no exceptions).
+set_option maxRecDepth 100000 in
+theorem years_leap_fact : allRec 512 (fun _ r => decide (Rec.yLeap r ≤ 12) && Rec.yCount r == (if Rec.yLeap r > 0 then 13 else 12)) Gen.monthsChunks = true := by
+  decide +kernel
+
 theorem records_length (w : Nat) : ∀ cs : List (Nat × Nat), (records w cs).length = (cs.map (·.1)).sum := by
   intro cs; induction cs with
   | nil => rfl
